@@ -5,6 +5,7 @@ import (
 	"math"
 	"math/rand"
 	"sort"
+	"strings"
 )
 
 // scene is one generated element set together with the data needed to hand it
@@ -23,6 +24,8 @@ type scene struct {
 	pos          []v3
 	idx          []int
 	indexPattern string // point clouds: identity | permuted | shared | unreferenced (+permuted)
+	special      string // special-coordinate ingredients applied to the scene ("" = none)
+	originElems  []int  // indices of zero-extent elements placed exactly at the world origin
 	// mixed / segments: per element, which source mesh + primitive it comes from is
 	// decided by the builder (build.go)
 }
@@ -280,8 +283,10 @@ func genScene(r *rand.Rand, kind string, maxN int) *scene {
 	switch {
 	case dist == "grid":
 		sc.genGrid(r, l, n)
+		sc.applySpecial(r)
 	case kind == "strip":
 		sc.genStrip(r, l, n)
+		sc.applySpecial(r)
 	default:
 		pool := 0
 		if dist == "coincident" {
@@ -300,12 +305,134 @@ func genScene(r *rand.Rand, kind string, maxN int) *scene {
 		if pool > 0 {
 			r.Shuffle(len(sc.elems), func(i, j int) { sc.elems[i], sc.elems[j] = sc.elems[j], sc.elems[i] })
 		}
+		sc.applySpecial(r)
 		if kind == "points" || kind == "triangles" {
 			sc.meshFromElems(r)
 		}
 	}
 	sc.finish()
 	return sc
+}
+
+func negZero() float64 { return math.Copysign(0, -1) }
+
+// applySpecial makes exactly-representable special coordinates a regular
+// ingredient (≈ 12 % of the scenes): the whole scene is translated so that a
+// vertex / a bounds minimum / a bounds maximum of some element is exactly 0 on
+// all or some axes; zero-extent elements (points, zero-size boxes) are placed
+// exactly at the world origin as element 0, as the last element or somewhere in
+// between; further zero-extent elements get coordinates from {-1,0,+1}. Values
+// such as "the empty box" (centre 0, extents 0) are thereby ordinary inputs.
+func (sc *scene) applySpecial(r *rand.Rand) {
+	if r.Intn(100) >= 12 {
+		return
+	}
+	n := len(sc.elems)
+	var tags []string
+	// 1. translation
+	e := sc.elems[r.Intn(n)]
+	var t v3
+	moved := true
+	switch r.Intn(5) {
+	case 0:
+		t = vertexOf(r, e)
+		tags = append(tags, "vertex-at-0")
+	case 1:
+		t, _ = e.bounds()
+		tags = append(tags, "bounds-min-at-0")
+	case 2:
+		_, t = e.bounds()
+		tags = append(tags, "bounds-max-at-0")
+	case 3:
+		lo, hi := e.bounds()
+		t = lo.add(hi).mul(0.5)
+		if sc.exact {
+			t = lo
+		}
+		tags = append(tags, "origin-inside-an-element")
+	default:
+		moved = false
+	}
+	if moved {
+		switch r.Intn(4) {
+		case 1: // exact zero on two axes only
+			t[r.Intn(3)] = 0
+			tags[0] += "(2 axes)"
+		case 2: // … on one axis only
+			k := r.Intn(3)
+			t[(k+1)%3], t[(k+2)%3] = 0, 0
+			tags[0] += "(1 axis)"
+		}
+		for i := range sc.elems {
+			for k := 0; k < sc.elems[i].nv(); k++ {
+				sc.elems[i].v[k] = sc.elems[i].v[k].sub(t)
+			}
+		}
+		for i := range sc.pos {
+			sc.pos[i] = sc.pos[i].sub(t)
+		}
+	}
+	// 2./3. zero-extent elements at the origin and at unit coordinates
+	zeroElem := func(p v3) (elem, bool) {
+		k := -1
+		switch sc.kind {
+		case "points":
+			k = kPoint
+		case "boxes":
+			k = kBox
+		case "mixed":
+			k = []int{kPoint, kBox}[r.Intn(2)]
+		}
+		switch k {
+		case kPoint:
+			return elem{kind: kPoint, v: [3]v3{p}}, true
+		case kBox:
+			return elem{kind: kBox, v: [3]v3{p, p}}, true
+		}
+		return elem{}, false
+	}
+	if _, ok := zeroElem(v3{}); ok {
+		if r.Intn(10) < 7 {
+			var slots []int
+			switch pick(r, []int{45, 15, 25, 15}) {
+			case 0:
+				slots = []int{0}
+				tags = append(tags, "origin-element-first")
+			case 1:
+				slots = []int{n - 1}
+				tags = append(tags, "origin-element-last")
+			case 2:
+				slots = []int{r.Intn(n)}
+				tags = append(tags, "origin-element-inside")
+			default:
+				slots = []int{0, r.Intn(n), n - 1}
+				tags = append(tags, "origin-element-several")
+			}
+			for _, i := range slots {
+				o := v3{}
+				if r.Intn(4) == 0 {
+					o[r.Intn(3)] = negZero()
+				}
+				sc.elems[i], _ = zeroElem(o)
+			}
+		}
+		if r.Intn(10) < 4 {
+			for k := 1 + r.Intn(4); k > 0; k-- {
+				p := v3{float64(r.Intn(3) - 1), float64(r.Intn(3) - 1), float64(r.Intn(3) - 1)}
+				sc.elems[r.Intn(n)], _ = zeroElem(p)
+			}
+			tags = append(tags, "unit-coordinates")
+		}
+	}
+	for i, e := range sc.elems {
+		if (e.kind == kPoint || e.kind == kBox) && e.v[0] == (v3{}) && (e.kind == kPoint || e.v[1] == (v3{})) {
+			sc.originElems = append(sc.originElems, i)
+		}
+	}
+	if len(tags) == 0 {
+		tags = []string{"origin-queries-only"}
+	}
+	sc.special = strings.Join(tags, "+")
 }
 
 // genStrip: a poly-line through n+1 vertices; consecutive vertices differ.
@@ -589,11 +716,27 @@ func (sc *scene) queryPoint(r *rand.Rand) (v3, string) {
 	e := sc.elems[r.Intn(len(sc.elems))]
 	diam := sc.diameter()
 	centre := sc.lo.add(sc.hi).mul(0.5)
-	w := []int{20, 15, 10, 12, 8, 8, 5, 0, 8, 6}
+	w := []int{20, 15, 10, 12, 8, 8, 5, 0, 8, 6, 0, 0}
 	if sc.exact {
 		w[7] = 30
 	}
+	if sc.special != "" {
+		w[10], w[11] = 30, 12
+	}
 	switch pick(r, w) {
+	case 10:
+		o := v3{}
+		if r.Intn(5) == 0 {
+			o[r.Intn(3)] = negZero()
+		}
+		return o, "world-origin"
+	case 11:
+		var p v3
+		p[r.Intn(3)] = []float64{1, -1, 0.5, -0.5, sc.S, -sc.S}[r.Intn(6)]
+		if r.Intn(3) == 0 {
+			p = v3{float64(r.Intn(3) - 1), float64(r.Intn(3) - 1), float64(r.Intn(3) - 1)}
+		}
+		return p, "unit-coordinates"
 	case 0:
 		pad := sc.hi.sub(sc.lo).mul(0.05)
 		return randIn(r, sc.lo.sub(pad), sc.hi.add(pad)), "inside"
